@@ -289,6 +289,12 @@ func runC01(c *Ctx) {
 	ruleShimSessionIDs(c, p, "C01.S")
 
 	// ---- C01.A
+	c.Rule("C01.M", "no response bytes pass through scratch memory shared between activations (captured or package-level buffers, pools, loop variables shared by worker goroutines)", 3)
+	ruleSharedScratch(c, p, "C01.M", "agent", "agent/utils", "agent/websockets", "agent/banner", "agent/sessions", "server")
+	ruleLoopSharedCapture(c, p, "C01.M", 1, "agent", "agent/utils", "server")
+	rulePooledMemory(c, p, "C01.M", "agent", "agent/utils", "agent/websockets", "agent/banner", "agent/sessions", "server")
+	c.Rule("C01.C", "App Engine proxy GET response cache: one injective key of (user, URL)", 5)
+	ruleAppResponseCacheKey(c, p, "C01.C")
 	c.Rule("C01.A", "chain of custody of (backend ID, request ID) through the agent, by parameter role", 35)
 	if f := c.need(p, "C01.A", "agent.pollForNewRequests"); f != nil {
 		if g := c.UniqueCall("C01.A", p, f, false, ModPath+"/agent.processOneRequest"); g != nil {
